@@ -256,6 +256,19 @@ PROBES = [
 ]
 
 
+# doc-silent spots modelled as implemented (past disagreements between the references and the code)
+REGRESSIONS = [
+    ('literal operands are type-checked before anything is evaluated', "false + [][0]", ('err', 'NoMatchingFunctionException')),
+    ('literal operands are type-checked before anything is evaluated', "[][0] - a", ('err', 'NoMatchingFunctionException')),
+    ('literal operands are type-checked before anything is evaluated', "[][0] < true", ('err', 'IndexError')),
+    ('literal operands are type-checked before anything is evaluated', "'abc'[[][0]]", ('err', 'NoMatchingFunctionException')),
+    ('literal operands are type-checked before anything is evaluated', "[1].unpack(1, [][0])", ('err', 'NoMatchingMethodException')),
+    ('the selector of an ordering runs inside the comparisons', "[1].orderBy($.foo)", [1]),
+    ('a generator raises only when it is consumed', "[1, 'a'].select($ + 1).first()", 2),
+    ('len does not accept an ordering', "[2, 1].orderBy($).len()", ('err', 'NoMatchingMethodException')),
+]
+
+
 def expect(expected):
     return expected if isinstance(expected, tuple) and expected[:1] == ('err',) else ('ok', expected)
 
@@ -412,7 +425,7 @@ def work(args):
 def fixed_battery(drv, res):
     """the probe programs, three ways, every run"""
     n = 0
-    for fact, text, expected in PROBES:
+    for fact, text, expected in PROBES + REGRESSIONS:
         ast = parse_ast(text)
         model = ask_model(drv, [(ast, {})])[0]
         f, info = evaluate_case(ast, {}, model)
@@ -425,7 +438,7 @@ def fixed_battery(drv, res):
                 text, show(info['ref']), show(expect(expected))), replay_of(ast, {}))
         if f:
             facts = scoping_facts() if f[0] == 'oracle' else None
-            what = f[1] + (' || scoping fact: ' + fact if f[0] == 'oracle' else '')
+            what = f[1] + (' || scoping fact: ' + fact if f[0] == 'oracle' and (fact, text, expected) in PROBES else '')
             res.fail(f[0], failure_key(ast), what, replay_of(ast, {}, facts))
     return n
 
